@@ -285,14 +285,17 @@ func (m *monitor) Snapshot() []kemtypes.ObjectAndFilterResult {
 	objects := make([]kemtypes.ObjectAndFilterResult, 0)
 
 	for _, informer := range m.ResourceInformers {
+		verifsched.Point("snapshot.read", "snapshot/"+m.Config.Metadata.MonitorId)
 		objects = append(objects, informer.getCachedObjects()...)
 	}
 
 	m.VaryingInformers.RangeValue(func(value []*resourceInformer) {
 		for _, informer := range value {
+			verifsched.Point("snapshot.read", "snapshot/"+m.Config.Metadata.MonitorId)
 			objects = append(objects, informer.getCachedObjects()...)
 		}
 	})
+	verifsched.Point("snapshot.sort", "snapshot/"+m.Config.Metadata.MonitorId)
 
 	// Sort objects by namespace and name
 	sort.Sort(kemtypes.ByNamespaceAndName(objects))
